@@ -350,6 +350,9 @@ TEMPLATES = [
     ("my hash is {}", ("md5", "j9"), "keep"),
     ("foo bar \"{}\"; baz", ("md5", "j9"), "keep"),
     ("<pre_shared_key>{}</pre_shared_key>", ("aws",), "keep"),
+    # one physical line holding the same form twice (AWS prints the whole customer-gateway document, both tunnels, on one line)
+    ("<ipsec_tunnel><pre_shared_key>{}</pre_shared_key></ipsec_tunnel><ipsec_tunnel><pre_shared_key>{}</pre_shared_key></ipsec_tunnel>", ("aws",), "keep"),
+    ("{{\"PreSharedKey\": \"{}\", \"Tunnel\": 1}}, {{\"PreSharedKey\": \"{}\", \"Tunnel\": 2}}", ("aws",), "keep"),
     ("\"PreSharedKey\": \"{}\",", ("aws",), "keep"),
     # scrub forms: the whole remainder is replaced by the marker
     ("cable shared-secret {}", ALL, "scrub"),
